@@ -80,6 +80,31 @@ def check_circuit(recipe, env, maxph, acc):
     acc.sample({"recipe": recipe["name"], "ops": recipe["ops"], "inputs": "all <=%d photons" % maxph}, limit=2)
 
 
+def check_bunched(env, acc):
+    """Two modes, many photons in one mode: the occupation factorials leave the 64-bit range at 21! (one mode) and at
+    13!*13! (product); the reference expands the creation-operator polynomial with exact integers."""
+    c = lw.Circuit(2)
+    c.bs(0, reflectivity=env.R[1]); c.ps(0, env.PH[0]); c.bs(0, reflectivity=env.R2, convention="H")
+    U = c.U_full
+    plan = [((13, 0), ("permanent", "slos")), ((0, 16), ("permanent", "slos")), ((9, 9), ("permanent", "slos")),
+            ((12, 12), ("slos",)), ((13, 13), ("slos",)), ((21, 0), ("slos",)), ((2, 22), ("slos",))]
+    for vin, backends in plan:
+        amps = ref_fock.evolve_poly(U, vin)
+        ref = {k: abs(a) ** 2 for k, a in amps.items() if abs(a) ** 2 > 0}
+        fold = {k: 1 for k in ref}
+        for be in backends:
+            case = {"scenario": "bunched", "input": vin, "backend": be, "seed": env.seed}
+            acc.tick("executions"); acc.tick("transitions")
+            try:
+                d = emu.Sampler(c, lw.State(list(vin)), backend=be).probability_distribution
+            except Exception as e:  # noqa: BLE001
+                acc.violation("distribution_raises", case, {"error": repr(e), "cause": repr(e.__cause__)})
+                continue
+            compare(d, ref, fold, sum(vin), 2, be, case, acc)
+            acc.state("bunched", vin, be)
+            acc.nontriv("bunched", vin, be)
+
+
 def run(tier, seed):
     env = Env(seed)
     fam = emulator_family(env, tier)
@@ -101,8 +126,9 @@ def run(tier, seed):
         return a
 
     acc.merge(kernel.pmap(shard_lay, kernel.interleave(lay, kernel.NPROC * 3)))
+    b = kernel.Acc(); check_bunched(env, b); acc.merge(b)
     meta = {
-        "rule": "every circuit recipe of the emulator family (and every herald layout of <= 2 heralds on 3 modes, 4 in thorough: ordered "
+        "rule": "(plus 2-mode inputs with 13..26 photons, where occupation factorials exceed 64 bits) every circuit recipe of the emulator family (and every herald layout of <= 2 heralds on 3 modes, 4 in thorough: ordered "
                 "input modes x ordered output modes x photon numbers {0,1,2}; every mode heralded on 2 and 3 modes) x every Fock input on the visible modes up to the photon "
                 "bound (vacuum, bunched) x backend in {permanent, slos}; each distribution compared entry by entry with "
                 "|amp|^2 over the complete Fock basis of all modes incl. loss modes, marginalised (tolerance = number of "
@@ -118,5 +144,8 @@ def run(tier, seed):
 def replay(w, acc):
     case = w["case"]
     env = Env(case.get("seed", 0))
+    if case.get("scenario") == "bunched":
+        check_bunched(env, acc)
+        return
     rc = case["recipe"]
     check_circuit(rc, env, 2, acc)
